@@ -22,7 +22,7 @@ for p in props:
         'evidence_file': '/verif/evidence/%s.json' % pid,
         'replay_cmd_template': '/venv/bin/python -m sa.check %s --replay {path}' % pid,
         'engine': 'sa',
-        'level_claimed': {'category': meta.get('level', 'other'), 'text': meta['claim'],
+        'level_claimed': {'category': meta.get('level', 'other'), 'text': meta['claim'] + ((' ' + meta['claim_added']) if meta.get('claim_added') else ''),
                           'design_ref': 'DESIGN.md section 4, %s' % pid},
         'level_note': meta['note'],
         'technique': meta['technique'],
@@ -42,7 +42,10 @@ man = {
     'not_applicable': na,
     'notes': 'All checks are static: they parse /repo/yatiml/*.py and PyYAML\'s sources on every run and never import or '
              'execute them. Exit 2 (ANALYSIS-ERROR) means the analysis could not proceed and is never a pass. '
-             'Known findings: /verif/known_findings.json. fix: commits in /repo are listed there as fixed entries.',
+             'Known findings: /verif/known_findings.json. fix: commits in /repo are listed there as fixed entries. '
+             'Thorough tier = quick + the checker self-test of sa/selftest.py (must-fire: test-surviving mutants of '
+             'sa/selftest_corpus.json and the 126 seeded changes under /verif/seeded; must-stay-silent: 19 behaviour-preserving '
+             'transformations of sa/refactor.py), all in memory on the current /repo sources; a self-test disagreement is exit 2.',
 }
 json.dump(man, open('/verif/MANIFEST.json', 'w'), indent=1)
 print('checks:', [c['property_id'] for c in checks], 'n/a:', len(na))
